@@ -4,7 +4,7 @@
 package cosmos
 
 //@ func (*CosmosHandler).MakeDepositProposal
-//@   property C20
+//@   property C20, C30
 //@   mode abstract
 //@   modifies Store
 //@   requires service != nil
@@ -18,6 +18,15 @@ package cosmos
 //@   set before "if err := scom.CheckDoneTx(service, txParam.CrossChainID, params.SourceChainID); err != nil" : id := bytes(txParam.CrossChainID)
 //@   set before "if err := scom.CheckDoneTx(service, txParam.CrossChainID, params.SourceChainID); err != nil" : chk := txParam
 //@   set after "if err := scom.PutDoneTx(service, txParam.CrossChainID, params.SourceChainID); err != nil" : post := Store
+//@   -- C30: a deposit is accepted only if the submitted message is proven to EXIST (not merely proven absent) in
+//@   -- the state committed by a header that passed VerifyCosmosHeader against the tracked epoch info
+//@   ghost var hdrOK bool = false
+//@   ghost var existsOK bool = false
+//@   set after "if err = cosmos.VerifyCosmosHeader(&myHeader, info); err != nil" : hdrOK := true
+//@   set after "err = prt.VerifyValue(&proof, myHeader.Header.AppHash, proofValue.Kp, proofValue.Value)" : existsOK := err == nil
+//@   ensures[c30-header-verified] err == nil && r0 != nil ==> hdrOK
+//@   ensures[c30-existence] err == nil && r0 != nil ==> existsOK
+//@   callsite[c30-proved-value-is-the-message] NewZeroCopySource#2 requires bytes(arg0) == bytes(proofValue.Value)
 //@   -- the message handed back is the one whose id was checked
 //@   ensures[c20-same] err == nil && r0 != nil && true ==> r0 == chk
 //@   -- accepted only if no done-marker existed for (source chain, id) when it was checked
